@@ -201,6 +201,79 @@ PROPS = {
         "facts": ["CopyFacts"],
         "streams": [HIST, {"name": "copyrace", "race": True, "model": False}],
     },
+    "C12": {
+        "claim": {
+            "text": "Random-stream model: with two agents drawing from one stream the interleaving is a free variable "
+                    "(counterexample theorem: same stream, two schedules, different tie-break draws); the repaired code "
+                    "generates all stop orders before handing them over, and then each agent's draws are a function of "
+                    "the stream alone (theorem). Decided on the real code by repetition: the same generated input "
+                    "(integer matrices collapsed to few distinct values → cost ties; units with several allowed "
+                    "orders), seed and options, one parallel run, model rebuilt for every repetition, with and "
+                    "without schedule perturbation through the verif hooks: the sequence of delivered solutions and "
+                    "the final output must be identical. Found and repaired: E5 (shared random source), E19 "
+                    "(map-ordered filing of initial units), E18 (collector lag).",
+            "note": TB_COMMON + " math/rand is an abstract stream; 'any machine load' is approximated by injected delays.",
+            "technique": "Lean 4 proof (stream-splitting theorem + counterexample) + repetition differential under schedule perturbation",
+            "design_ref": "DESIGN.md §5 C12",
+        },
+        "lean_props": ["C12"],
+        "streams": [{"name": "repro", "corpus": True, "model": False}],
+    },
+    "C13": {
+        "claim": {
+            "text": "Protocol model NR.Par with each run an uninterpreted deterministic function of (start solution, "
+                    "grant): FALSE for two or more parallel runs — machine-checked counterexamples for arrival-order "
+                    "budget slices and for a run copying the shared best before/after another run of the same cycle "
+                    "reported; PROVED: the collector's final best of a cycle is independent of the arrival order of "
+                    "the messages, the total grant is independent of the arrival order at the counter. Decided on the "
+                    "real code by forced schedules (delays injected through verifYield at the collector's update, "
+                    "worker start, budget grab, send): the final solution of deterministic mode must be the same "
+                    "under every schedule. The cross-cycle lag was repaired (E18); schedule dependence with two or "
+                    "more runs is a listed finding (a repair needs the dispatcher to assign start solutions and budgets).",
+            "note": TB_COMMON + " Forced schedules are a search for a replay, not the decision procedure.",
+            "technique": "Lean 4 proof (counterexample + partial theorems over the protocol model) + forced-schedule differential",
+            "design_ref": "DESIGN.md §5 C13",
+        },
+        "lean_props": ["C13", "C15"],
+        "streams": [{"name": "detsched", "corpus": True, "model": False, "timeout": 3000}],
+    },
+    "C14": {
+        "claim": {
+            "text": "Lean decides the lockset discipline of the parallel solver over the access table regenerated "
+                    "from the source on every run (every conflicting pair of accesses to bestSolution / solutions / "
+                    "progression / the counters from different goroutines shares a mutex or is atomic; every go "
+                    "statement of the package is accounted for). PARTIAL: accesses outside the protocol are covered by "
+                    "C11 and by race-detector runs of the parallel and single solver over generated feature mixes "
+                    "(each activates different lazily initialised caches) and of concurrently mutated copies; a report is "
+                    "a concrete failing schedule. Found and repaired: E5, E6 (both), the cached default time value.",
+            "note": TB_COMMON + " The step from lockset discipline to happens-before ordering is the classical argument, "
+                    "not re-proved; the Go race detector validates the table and finds replays.",
+            "technique": "Lean 4 decision of the lockset discipline over regenerated access facts + race-detector differential",
+            "design_ref": "DESIGN.md §5 C14",
+        },
+        "lean_props": ["C14"],
+        "facts": ["ParFacts"],
+        "streams": [{"name": "parrace", "race": True, "model": False}, {"name": "copyrace", "race": True, "model": False}],
+    },
+    "C15": {
+        "claim": {
+            "text": "Budget: for EVERY arrival order at the shared counter each run is granted at most its request and the "
+                    "grants sum to exactly min(budget, total demand) (theorem; the compiled model recomputes the total "
+                    "from the requests observed and it is compared with the grants read through the hook). Shutdown: "
+                    "transition system of dispatcher / workers / collector after the context is done: invariant "
+                    "preserved, a measure strictly decreases on every step, no deadlock while the consumer drains — so "
+                    "the result channel is closed after finitely many steps. Decided on the real code over option "
+                    "combinations (iterations 0/1/few/unlimited, duration 0/short, runs below/at/above the CPU count, "
+                    "0..3 start solutions, plain/cancelled/deadline contexts): Iterated events vs budget, channel "
+                    "closed, no panic. 'Shortly after' in wall-clock terms is measured, not proved (partial). "
+                    "Repaired: E11 (panic on a context without run.Start).",
+            "note": TB_COMMON + " Wall-clock time, the Go scheduler and the memory model are abstracted by the transition system.",
+            "technique": "Lean 4 proof (budget arithmetic for all arrival orders; measure/invariant/progress of the shutdown transition system) + option-combination differential",
+            "design_ref": "DESIGN.md §5 C15",
+        },
+        "lean_props": ["C15"],
+        "streams": [{"name": "budget", "corpus": True}],
+    },
     "C16": {
         "claim": {
             "text": "Index-arithmetic theorems for every table behind the crashes found (matrix layout incl. vehicles "
